@@ -26,6 +26,7 @@ type Env struct {
 	globals  map[*ssa.Global]*globalInfo
 	specDeps map[string][]heapDep
 	specTrial map[string]bool
+	BV       bool // bit-vector / IEEE float mode
 }
 
 func NewEnv(P *Program) *Env {
@@ -95,8 +96,17 @@ func (E *Env) sortOf(t types.Type, key string) *Sort {
 		case u.Info()&types.IsBoolean != 0:
 			return SBool
 		case u.Info()&types.IsInteger != 0:
+			if E.BV {
+				w, _ := intBits(t)
+				if w > 0 {
+					return BVSort(w)
+				}
+			}
 			return SInt
 		case u.Info()&types.IsFloat != 0:
+			if E.BV {
+				return fpSortOf(t)
+			}
 			return SReal
 		case u.Info()&types.IsString != 0:
 			return SStr
